@@ -57,7 +57,8 @@ func byValueIndexed(t *absTy) bool {
 
 func init() {
 	register(&Suite{
-		Prop: "C12",
+		Prop:     "C12",
+		Parallel: true,
 		Gen: func(c *Ctx) {
 			r := c.R
 			n := 300
@@ -312,8 +313,8 @@ func init() {
 						idx = i + 1
 					}
 				}
-				s, _ := a.ErrorString(unhx(str(orc, "data")))
-				return map[string]any{"index": idx, "cv": cvToJSON(cv), "str": s != ""}
+				s, sok := a.ErrorString(unhx(str(orc, "data")))
+				return map[string]any{"index": idx, "cv": cvToJSON(cv), "str": s != "", "strOK": sok, "strText": trunc(s, 200), "name": e.Name}
 			}
 			return "bad-op"
 		},
@@ -390,6 +391,10 @@ func init() {
 					}
 					if orc["expectSameEntry"] == true && !same(m["cv"], orc["value"]) {
 						fs = append(fs, Finding{Kind: "violation", Region: "abi.error.args", Detail: "decoded error arguments differ"})
+					}
+					// the string form goes through the same attribution: it must exist and name the error
+					if m["strOK"] != true || !strings.HasPrefix(fmt.Sprint(m["strText"]), fmt.Sprint(m["name"])+"(") {
+						fs = append(fs, Finding{Kind: "violation", Region: "abi.error.string", Detail: fmt.Sprintf("ErrorString of attributed revert data is %q, ok=%v (expected %s(…), true)", m["strText"], m["strOK"], m["name"])})
 					}
 				}
 			}
